@@ -55,6 +55,15 @@ def export_instance(cfg, G, cg, e, names, cn, sizes, p0, n):
             L.append(" ".join(map(str, row)))
     L.append(" ".join(str(sizes[nm]) for nm in names))
     L.append(f"{p0} {n}")
+    # the partitioner's monomorphism of this episode (vertex -> (partition, slot)), in dict order: kind seq partition slot_index (ToTimings.v)
+    sidx = {sn: i for i, sn in enumerate(slots)}
+    mono = getattr(G, "_Gs_monomorphism", None); Gs = getattr(G, "_Gs", None)
+    ent = []
+    if mono is not None and Gs is not None and e < len(mono):
+        for n2, (pi, s2) in mono[e].items():
+            d = Gs[e].nodes[n2]
+            ent.append(f"{idx[d['kind']]} {int(d['seq'])} {int(pi)} {sidx[s2]}")
+    L.append(" ".join([str(len(ent))] + ent))
     return "\n".join(L)
 
 
